@@ -18,6 +18,7 @@ from . import rules_order as ROR
 from . import rules_r6 as R6
 from . import rules_r6b as R6B
 from . import rules_r10 as R10
+from . import rules_r12 as R12
 from . import rules_read as RD
 from . import rules_reader as RRD
 from . import rules_repr as RR2
@@ -39,6 +40,7 @@ def emit_readable(ctx, repo):
     ctx.call(RE.r_bytes_iter, repo)
     ctx.call(RX.r_block_hint_leading, repo)
     ctx.call(RX.r_analyze_special, repo)
+    ctx.call(R12.r_analyze_adjacent, repo)
     ctx.call(RX.r_escape_introducer, repo)
     ctx.call(RX.r_fold_leading_space, repo)
     ctx.call(RX.r_emitter_doc_reset, repo)
